@@ -16,15 +16,21 @@ import (
 // C02 — the server's copy of an open document equals the client's.
 
 type C02Step struct {
-	Kind  string          `json:"kind"` // change | full | save | reopen
+	Kind  string          `json:"kind"`          // change | full | save | reopen
+	Doc   int             `json:"doc,omitempty"` // which of the open documents (0 or 1)
 	Edits []refmodel.Edit `json:"edits,omitempty"`
 	Text  string          `json:"text,omitempty"`
 }
 
 type C02Case struct {
-	Init  string    `json:"init"`
+	Init string `json:"init"`
+	// Init2: a second document open at the same time (when Two), edited in an interleaved way
+	Two   bool      `json:"two,omitempty"`
+	Init2 string    `json:"init2,omitempty"`
 	Steps []C02Step `json:"steps"`
 }
+
+var c02Rel = [2]string{"doc.lua", "sub/other.lua"}
 
 func init() { register("C02", checkC02) }
 
@@ -121,32 +127,42 @@ func c02GenEdit(t *rapid.T, text string) refmodel.Edit {
 func genC02(t *rapid.T) C02Case {
 	var c C02Case
 	c.Init = c02GenText(t, 12, "init")
-	text := c.Init
-	saved := c.Init
+	ndocs := 1
+	if rapid.IntRange(0, 3).Draw(t, "twoDocs") == 0 {
+		c.Two = true
+		c.Init2 = c02GenText(t, 8, "init2")
+		ndocs = 2
+	}
+	text := [2]string{c.Init, c.Init2}
+	saved := text
 	n := rapid.IntRange(1, 20).Draw(t, "nsteps")
 	for s := 0; s < n; s++ {
 		var st C02Step
+		if ndocs == 2 {
+			st.Doc = rapid.IntRange(0, 1).Draw(t, "doc")
+		}
+		d := st.Doc
 		switch rapid.IntRange(0, 9).Draw(t, "kind") {
 		case 0:
 			st.Kind = "full"
 			st.Text = c02GenText(t, 8, "full")
-			text = st.Text
+			text[d] = st.Text
 		case 1:
 			st.Kind = "save"
-			saved = text
+			saved[d] = text[d]
 		case 2:
 			st.Kind = "reopen"
-			text = saved
+			text[d] = saved[d]
 		default:
 			st.Kind = "change"
 			k := rapid.IntRange(1, 3).Draw(t, "batch")
 			for i := 0; i < k; i++ {
-				e := c02GenEdit(t, text)
-				nt, ok := refmodel.Apply(text, e)
+				e := c02GenEdit(t, text[d])
+				nt, ok := refmodel.Apply(text[d], e)
 				if !ok {
-					t.Fatalf("generator produced an inapplicable edit %+v on %q", e, text)
+					t.Fatalf("generator produced an inapplicable edit %+v on %q", e, text[d])
 				}
-				text = nt
+				text[d] = nt
 				st.Edits = append(st.Edits, e)
 			}
 		}
@@ -156,49 +172,66 @@ func genC02(t *rapid.T) C02Case {
 }
 
 func checkC02(c C02Case, env *Env) *Violation {
-	const rel = "doc.lua"
-	req := &proto.Request{Cmd: "session", Files: []proto.File{{Path: rel, Data: []byte(c.Init)}},
+	ndocs := 1
+	if c.Two {
+		ndocs = 2
+	}
+	req := &proto.Request{Cmd: "session", Files: []proto.File{{Path: c02Rel[0], Data: []byte(c.Init)}},
 		InitOptions: harness.J(harness.Flags(1))}
-	text, saved := c.Init, c.Init
-	version := 1
+	if c.Two {
+		req.Files = append(req.Files, proto.File{Path: c02Rel[1], Data: []byte(c.Init2)})
+	}
+	text := [2]string{c.Init, c.Init2}
+	saved := text
+	version := [2]int{1, 1}
 	var expect []string // expected text after each getdoc
 	add := func(s proto.Step) { req.Steps = append(req.Steps, s) }
 	getdoc := func() {
-		add(proto.Step{Op: "getdoc", Path: harness.URI(rel)})
-		expect = append(expect, text)
+		// every open document is compared after every step: an edit must not leak into the other one
+		for d := 0; d < ndocs; d++ {
+			add(proto.Step{Op: "getdoc", Path: harness.URI(c02Rel[d])})
+			expect = append(expect, text[d])
+		}
 	}
-	add(harness.DidOpen(rel, text))
+	for d := 0; d < ndocs; d++ {
+		add(harness.DidOpen(c02Rel[d], text[d]))
+	}
 	getdoc()
 	nontrivial := false
 	for _, st := range c.Steps {
-		version++
+		d := st.Doc
+		if d < 0 || d >= ndocs {
+			return violf("bad-case", "step names document %d", d)
+		}
+		rel := c02Rel[d]
+		version[d]++
 		switch st.Kind {
 		case "full":
-			text = st.Text
-			add(harness.DidChangeFull(rel, version, text))
+			text[d] = st.Text
+			add(harness.DidChangeFull(rel, version[d], text[d]))
 		case "save":
-			saved = text
-			add(proto.Step{Op: "write", Path: rel, Data: []byte(text)})
-			add(harness.DidSave(rel, text))
+			saved[d] = text[d]
+			add(proto.Step{Op: "write", Path: rel, Data: []byte(text[d])})
+			add(harness.DidSave(rel, text[d]))
 		case "reopen":
 			add(harness.DidClose(rel))
-			text = saved
-			add(harness.DidOpen(rel, text))
+			text[d] = saved[d]
+			add(harness.DidOpen(rel, text[d]))
 		case "change":
 			var changes []harness.M
 			for _, e := range st.Edits {
-				if isC02NT(text, e) {
+				if isC02NT(text[d], e) {
 					nontrivial = true
 				}
-				nt, ok := refmodel.Apply(text, e)
+				nt, ok := refmodel.Apply(text[d], e)
 				if !ok {
 					return violf("bad-case", "edit %+v not applicable to the model text", e)
 				}
-				text = nt
+				text[d] = nt
 				changes = append(changes, harness.M{"range": harness.M{"start": harness.Pos(e.SL, e.SC), "end": harness.Pos(e.EL, e.EC)}, "text": e.Text})
 			}
 			add(proto.Step{Op: "notify", Method: "textDocument/didChange", Params: harness.J(harness.M{
-				"textDocument": harness.M{"uri": harness.URI(rel), "version": version}, "contentChanges": changes})})
+				"textDocument": harness.M{"uri": harness.URI(rel), "version": version[d]}, "contentChanges": changes})})
 		}
 		getdoc()
 	}
@@ -228,6 +261,9 @@ func checkC02(c C02Case, env *Env) *Violation {
 	}
 	if env.Stats != nil {
 		env.Stats.Class("sequences")
+		if c.Two {
+			env.Stats.Class("two-documents")
+		}
 		if nontrivial {
 			if env.Stats.NT(fmt.Sprintf("%q|%v", c.Init, c.Steps)) {
 				env.Stats.Class("nontrivial")
